@@ -198,6 +198,25 @@ def dump(repo: str) -> dict:
         return isinstance(cls, type) and issubclass(cls, frames.Request)
 
     out["request_kinds"] = [int(m.value) for m in const.FrameType if _creatable(int(m.value))]
+
+    # C02: which requests the library answers, and with which header -- by calling Request.response()
+    # on a probe request whose four header bytes are all distinct and unlike any default
+    def _answer(code):
+        mod_name, cls_name = frames.get_frame_handler(code).rsplit(".", 1)
+        cls = getattr(importlib.import_module("pyplumio." + mod_name), cls_name)
+        probe = cls(recipient=0x22, sender=0x11, econet_type=0x33, econet_version=0x44)
+        resp = probe.response()
+        if resp is None:
+            return None
+
+        def origin(v):
+            v = int(v)
+            return {0x22: 1, 0x11: 2, 0x33: 3, 0x44: 4}.get(v, 1000 + v)   # copied from the request, or a constant
+
+        return [code, int(resp.frame_type), origin(resp.recipient), origin(resp.sender),
+                origin(resp.econet_type), origin(resp.econet_version)]
+
+    out["answers"] = [a for a in (_answer(k) for k in out["request_kinds"]) if a is not None]
     return out
 
 
@@ -227,6 +246,13 @@ def emit_lean(d: dict) -> dict[str, str]:
     body += pairs("encryptionTypes", d["encryption_types"])
     body += pairs("productTypes", d["product_types"])
     body += pairs("deviceStates", d["device_states"])
+    body += (
+        "/-- requests the library answers: (request kind, response kind, recipient, sender, sender type, version);\n"
+        "    a header field is 1..4 = copied from the request's recipient / sender / type / version, 1000+c = constant c -/\n"
+        "def answers : List (Nat × Nat × Nat × Nat × Nat × Nat) := "
+        + lean_list([f"({a}, {b}, {c_}, {d_}, {e}, {f})" for a, b, c_, d_, e, f in d["answers"]], 2)
+        + "\n\n"
+    )
     body += (
         "def extraDeviceStates : List (Nat × Nat) := "
         + lean_list([f"({a}, {b})" for a, b in d["extra_device_states"]], 6)
